@@ -256,6 +256,85 @@ def h_store_etag_args(c0: bytes, c1: bytes, target: int, body: bytes) -> bool:
     return run(body_store_etag_args, c0, c1, target, body)
 
 
+# ------------------------------------------------------------------ overlapping requests in the async front end
+from xv.env import mweb  # noqa: E402
+from xv.oracles import storespec as SP  # noqa: E402
+
+
+def _web_spec(S, method, name, body, im, inm):
+    cur = ('"' + mstore.expected_etag("tree", S[name]) + '"') if name in S else None
+    d = O.decide(method, cur, im, inm if method == "PUT" else None)
+    if d in ("412", "404"):
+        return d, S
+    if method == "PUT":
+        o, S2 = SP.put(S, name, body)
+        return ({"ok": "2xx", "invalid": "412", "duplicate": "412"}[o], S2)
+    o, S2 = SP.delete(S, name)
+    return ("2xx", S2)
+
+
+def body_overlap(c0, bodyA, condA, mB, bodyB, condB):
+    """Request A suspends at its body read (the one real suspension point of the handler in the aiohttp front end);
+    a complete request B runs there.  Conditions are stated against the state both clients saw (S).  The answers
+    and the final state must be those of a serial order."""
+    S = {}
+    if len(c0) > 0:
+        if not SP.invariant({"a.ics": c0}):
+            return (True, "pre-invalid")
+        S["a.ics"] = c0
+    mweb.fresh_world(S, {})
+    app = mweb.make_app()
+    cur = ('"' + mstore.expected_etag("tree", S["a.ics"]) + '"') if S else None
+
+    def hdr(cond):
+        if cond == 1:
+            return ("If-None-Match", "*")
+        if cond == 2 and cur is not None:
+            return ("If-Match", cur)
+        return None
+
+    def conds(cond):
+        h = hdr(cond)
+        return (h[1] if h and h[0] == "If-Match" else None, h[1] if h and h[0] == "If-None-Match" else None)
+
+    path = mweb.CAL + "/a.ics"
+    res = {}
+    methB = ["PUT", "DELETE"][mB]
+
+    def intruder():
+        h = hdr(condB)
+        res["B"] = mweb.call(app, methB, path, headers=[h] if h else [], body=bodyB, content_type="text/calendar").status_class
+
+    hA = hdr(condA)
+    res["A"] = mweb.call(app, "PUT", path, headers=[hA] if hA else [], body=bodyA, content_type="text/calendar",
+                         on_read=intruder).status_class
+    if "B" not in res:
+        return (False, "body-never-read")
+    g = mweb.call(app, "GET", path)
+    final = {"a.ics": g.body} if g.status_class == "2xx" else {}
+    ok = False
+    for order in ("AB", "BA"):
+        curS, good = S, True
+        for x in order:
+            if x == "A":
+                want, curS = _web_spec(curS, "PUT", "a.ics", bodyA, *conds(condA))
+            else:
+                want, curS = _web_spec(curS, methB, "a.ics", bodyB, *conds(condB))
+            good = good and res[x] == want
+        if good and final == curS:
+            ok = True
+    return (ok, "A:" + res["A"] + "/B:" + res["B"])
+
+
+def h_overlap(c0: bytes, bodyA: bytes, condA: int, mB: int, bodyB: bytes, condB: int) -> bool:
+    """
+    pre: len(c0) <= 2 and 1 <= len(bodyA) <= 2 and 1 <= len(bodyB) <= 2
+    pre: 0 <= condA <= 2 and 0 <= condB <= 2 and 0 <= mB <= 1
+    post: _
+    """
+    return run(body_overlap, c0, bodyA, condA, mB, bodyB, condB)
+
+
 _CLS = ["PUT:412", "PUT:execute", "DELETE:412", "DELETE:execute", "DELETE:404", "GET:304", "GET:serve",
         "HEAD:304", "GET:404"]
 _B = {"quick": {"hlen": 3, "elen": 1, "nitems": 2}, "thorough": {"hlen": 5, "elen": 2, "nitems": 3}}
@@ -278,6 +357,13 @@ HARNESSES = [
             budget={"quick": 60, "thorough": 420}, real_replay=real_wsgi,
             describe="same decision table through WSGIRequest (the HTTP_* header table of the WSGI front end)",
             encodes=["xandikos.webdav.WSGIRequest.__init__", "xandikos.webdav.WebDAVApp._handle_request"]),
+    Harness("overlap", h_overlap, body_overlap, classes=["A:412/B:2xx", "A:2xx/B:2xx", "A:2xx/B:412"],
+            budget={"quick": 90, "thorough": 480},
+            describe="conditional PUT A on the real XandikosApp (aiohttp-shaped request) with a complete request B "
+                     "(PUT / DELETE, conditional or not) running at A's body read: answers and final state equal a serial "
+                     "order (two If-None-Match:* creations never both succeed)",
+            encodes=["xandikos.webdav.PutMethod.handle", "xandikos.webdav.DeleteMethod.handle",
+                     "xandikos.web.ObjectResource.set_body", "xandikos.web.StoreBasedCollection.create_member"]),
     Harness("store_etag_args", h_store_etag_args, body_store_etag_args,
             classes=[("put:etag", ("bare", 0, 3)), ("put:ok", ("tree", 0, 1)), ("delete:etag", ("vdir", 1, 3)),
                      ("delete:ok", ("bare", 1, 1))],
